@@ -289,6 +289,7 @@ pub fn run(_params: &Params) {
   ctx::set_clock(clock.now);
   let kb_default_opts = KeyBindingJWTValidationOptions::default();
   let mut issued: Vec<Issued> = Vec::new();
+  let mut accepted_with_other_typ: Option<String> = None;
   let mut old_kbs: Vec<String> = Vec::new();
   let mut nontrivial = false;
   let rounds = if ctx::chance(1, 50) {
@@ -505,7 +506,10 @@ pub fn run(_params: &Params) {
           }
         }
         6 => {
-          let o = JwsSignatureOptions::default().typ(["JWT", "kb-jwt", "sd-jwt"][ctx::choose(3)].to_owned());
+          // ("kb+jwt" is the typ the specification and the property name; the library's validator compares with the
+          // constant of its pinned dependency, " kb+jwt" with a leading blank, and so refuses it: completeness is not
+          // part of the statement, the refusal is counted as an observation)
+          let o = JwsSignatureOptions::default().typ(["JWT", "kb-jwt", "sd-jwt", "kb+jwt"][ctx::choose(4)].to_owned());
           if let Ok(k) = sign_raw(holder, kb_frag, kb_payload.as_bytes(), &o) {
             kb = k;
             ctx::stat("fault.adversary.kb_wrong_typ");
@@ -895,6 +899,15 @@ pub fn run(_params: &Params) {
       ),
       (Ok(claims), None) => {
         ctx::stat("probe.kb.accepted");
+        // "accepted only if it is typed kb+jwt": the typ as received, compared with the literal of the statement
+        let typ_received = received
+          .key_binding_jwt
+          .as_deref()
+          .and_then(parse_compact)
+          .and_then(|p| p.header.get("typ").and_then(|t| t.as_str().map(str::to_owned)));
+        if typ_received.as_deref() != Some("kb+jwt") {
+          accepted_with_other_typ = typ_received;
+        }
         if opt_nonce.as_ref().map(|o| *o != claims.nonce).unwrap_or(false) {
           ctx::violation("C16", "C16.kb_accept_only_if_fully_bound", "accepted/nonce-differs", "returned KB claims carry another nonce than the configured one");
         }
@@ -994,6 +1007,17 @@ pub fn run(_params: &Params) {
       }
     }
     nontrivial = true;
+  }
+  // reported once per run and after everything else, so that the remaining conjuncts stay under observation
+  if let Some(typ) = accepted_with_other_typ {
+    if !ctx::has_violation() {
+      ctx::violation(
+        "C16",
+        "C16.kb_accept_only_if_fully_bound",
+        if typ == KeyBindingJwtClaims::KB_JWT_HEADER_TYP { "accepted/typ-is-the-dependency-constant-not-kb+jwt" } else { "accepted/typ-is-not-kb+jwt" },
+        format!("a KB-JWT whose header typ is {typ:?} was accepted; the statement (and the specification) demand \"kb+jwt\""),
+      );
+    }
   }
   // ---- an issuer token that declares a hash algorithm the verifier does not have: no KB-JWT can be bound to it ----
   if ctx::chance(1, 8) {
